@@ -790,8 +790,9 @@ def step (st : St) (op : List String) (obs : Json) : St × String :=
           | .ok p => normEvs p == normEvs it.evs
           | .error _ => false) then none
       else some s!"{it.h} {ty}: predicted {showAlt (pred.alts.headD (.ok []))} observed {showAlt observedAlt}"
+    let tag := if pred.tag == "" then "" else if isErr then pred.tag ++ "/refused" else pred.tag
     ({ st with tab := tab }, fails ++ predFail.toList ++ it.applyFail.toList,
-      if pred.tag == "" || tags.contains pred.tag then tags else tags ++ [pred.tag])) (st, [], [])
+      if tag == "" || tags.contains tag then tags else tags ++ [tag])) (st, [], [])
   let okLine := s!"ok {op.headD ""}:{"+".intercalate tags}"
   if !fullObs then
     (st, if fails.isEmpty then okLine else "FAIL model " ++ short ("; ".intercalate fails) 1500)
